@@ -35,7 +35,7 @@ def relabel(labels, flavour=None, zipped=None):
 
 
 class FieldTaint:
-    def __init__(self, repo, cls, func, params, dict_fields=(), extra_roots=None):
+    def __init__(self, repo, cls, func, params, dict_fields=(), extra_roots=None, init_env=None):
         """params: parameter names whose attributes are tracked (e.g. ['self', 'other']).
         dict_fields: stored attributes that are dicts (iteration yields keys only).
         extra_roots: local names to treat like parameters (e.g. 'out' for the object under construction)."""
@@ -46,6 +46,7 @@ class FieldTaint:
         self.dict_fields = set(dict_fields)
         self.env = {}
         self.extra_roots = set(extra_roots or ())
+        self.init_env = dict(init_env or {})
         self._fix()
 
     # ---- properties -> stored attributes
@@ -225,7 +226,7 @@ class FieldTaint:
     def _fix(self):
         self.dict_locals = set()
         self.field_stores = {}   # (root, field) -> [(labels of stored value, stmt node, kind)]
-        env = {}
+        env = dict(self.init_env)
         body = self.func.node
         from .astutil import walk_local_stmt
 
